@@ -46,7 +46,9 @@ MODULES = {
 CHILD_CLS = {MTR: "ThreadRunner", PPR: "PPRWorker", PR: "ProcessRunnerWorker"}
 
 # a BFS level with at most this many fault sequences is continued sequence by sequence; a larger one is merged by state
-KEEP_QUICK, KEEP_THOROUGH = 64, 1024
+KEEP_QUICK, KEEP_THOROUGH = 64, 512
+# the first BFS level with at least this many fault sequences is split into independent sub-tree units
+SPLIT = 8
 
 # fates of one live tracked worker in one round
 SURVIVE, DIE_PRE, DIE_MID, EXIT_OK = "0", "1", "2", "3"
@@ -333,7 +335,7 @@ def configs(thorough: bool) -> list[dict]:
         for q in (0, 3):
             out.append(dict(runner=PPR, conf=dict(num_processes=n), cpus=2, queue=q))
     out.append(dict(runner=PPR, conf=dict(num_processes=0), cpus=2, queue=0))  # 0 = CPU count
-    out.append(dict(runner=PPR, conf=dict(num_processes=1, min_parallel_slots=3), cpus=2, queue=3))
+    out.append(dict(runner=PPR, conf=dict(num_processes=1, min_parallel_slots=2), cpus=3, queue=3))
     for mn, mx in ((1, 1), (1, 2), (2, 2), (1, 3), (2, 3), (3, 3)):
         for enf in (True, False):
             for q in ((0, 3) if enf else (0, 2, 4)):
@@ -391,6 +393,22 @@ def initial_pool(cfg: dict) -> tuple[int, int]:
 
 def fates(cfg: dict) -> str:
     return SURVIVE + DIE_PRE + DIE_MID + (EXIT_OK if cfg["runner"] == PR else "")
+
+
+def operations(cfg: dict, n_live: int, mixed: bool) -> list[str]:
+    """The fault steps possible with n live tracked workers: one fate per worker, in tracking order.
+
+    mixed: every assignment of a fate to every worker (3^n, ProcessRunner 4^n).
+    uniform (quick tier): every subset of the workers (2^n, incl. none and all) x ONE kind of death for that subset."""
+    alphabet = fates(cfg)
+    if mixed:
+        return ["".join(t) for t in itertools.product(alphabet, repeat=n_live)]
+    out = [SURVIVE * n_live]
+    for kind in alphabet[1:]:
+        for bits in itertools.product((False, True), repeat=n_live):
+            if any(bits):
+                out.append("".join(kind if b else SURVIVE for b in bits))
+    return out
 
 
 # ---------------------------------------------------------------------------
@@ -693,64 +711,92 @@ def _report(p: Partial, cfg: dict, d: Drive, hist: tuple, reported: set, stage: 
     d.found = []
 
 
-def _unit(item: tuple) -> Partial:
+def _stress(hist: tuple) -> int:
+    return sum(len(o) - o.count(SURVIVE) for o in hist)
+
+
+def _expand(p: Partial, cfg: dict, level: list, reported: set, mixed: bool) -> tuple[list, dict]:
+    """All successors of the fault sequences of one level: (every successor, best representative per state)."""
+    every: list[tuple[tuple, int]] = []
+    reps: dict = {}
+    for hist, n_live in level:
+        for op in operations(cfg, n_live, mixed):
+            d = _run_history(cfg, hist, op)
+            h2 = hist + (op,)
+            p.count("replayed_steps", len(hist))
+            p.count("transitions")
+            p.count("traces_validated_against_impl")
+            _report(p, cfg, d, h2, reported, "round")
+            key = d.dump()
+            p.add("bfs_states", (tag(cfg), key))
+            stress, n2 = _stress(h2), len(d.live_tracked())
+            if key not in reps or stress > reps[key][0]:
+                reps[key] = (stress, h2, n2)
+            every.append((h2, n2))
+            p.count("worker_deaths", stress)
+            d.settle_and_probe()
+            p.count("transitions")
+            p.count("traces_validated_against_impl", 2)
+            _report(p, cfg, d, h2, reported, "second-iteration+probe")
+            p.count("workers_spawned", len(d.os.procs))
+            p.max("max_workers_in_one_history", len(d.os.procs))
+    return every, reps
+
+
+def _root(item: tuple) -> tuple[Partial, list]:
+    """Start + the first levels of one configuration, fault sequence by fault sequence, until a level is wide
+    enough to be handed out as independent sub-trees. Returns the evidence and that level (the frontier)."""
     ci, thorough, depth = item
     cfg = configs(thorough)[ci]
-    keep = KEEP_THOROUGH if thorough else KEEP_QUICK
     p = Partial()
     reported: set = set()
-    alphabet = fates(cfg)
     with standins():
         d0 = _run_history(cfg, (), None)
         _report(p, cfg, d0, (), reported, "start")
         p.count("traces_validated_against_impl")
-        states = {d0.dump()}
+        p.add("bfs_states", (tag(cfg), d0.dump()))
         level: list[tuple[tuple, int]] = [((), len(d0.live_tracked()))]
         d0.settle_and_probe()
         _report(p, cfg, d0, (), reported, "second-iteration+probe")
         p.count("transitions")
         p.count("traces_validated_against_impl", 2)
-        deepest: tuple = ()
-        for _lvl in range(depth):
-            reps: dict = {}
-            every: list[tuple[tuple, int]] = []
-            for hist, n_live in level:
-                for op in ("".join(t) for t in itertools.product(alphabet, repeat=n_live)):
-                    d = _run_history(cfg, hist, op)
-                    h2 = hist + (op,)
-                    p.count("replayed_steps", len(hist))
-                    p.count("transitions")
-                    p.count("traces_validated_against_impl")
-                    _report(p, cfg, d, h2, reported, "round")
-                    key = d.dump()
-                    states.add(key)
-                    stress = sum(len(o) - o.count(SURVIVE) for o in h2)
-                    if key not in reps or stress > reps[key][0]:
-                        reps[key] = (stress, h2, len(d.live_tracked()))
-                    every.append((h2, len(d.live_tracked())))
-                    p.count("workers_spawned", len(d.os.procs))
-                    p.count("worker_deaths", stress)
-                    d.settle_and_probe()
-                    p.count("transitions")
-                    p.count("traces_validated_against_impl", 2)
-                    _report(p, cfg, d, h2, reported, "second-iteration+probe")
-                    p.max("max_workers_in_one_history", len(d.os.procs))
-            if len(every) <= keep:
+        done = 0
+        while done < depth and len(level) < SPLIT:
+            level, _ = _expand(p, cfg, level, reported, thorough)
+            done += 1
+            p.count("levels_kept_unmerged")
+    p.count(f"configs_{cfg['runner']}")
+    p.add("configs", tag(cfg))
+    if done == depth and level:
+        p.sample({"configuration": tag(cfg), "a_deepest_fault_sequence": list(max((h for h, _ in level), key=_stress))})
+    if not seams_restored():
+        raise RuntimeError("stand-ins left installed")
+    return p, (level if done < depth else [])
+
+
+def _subtree(item: tuple) -> Partial:
+    """BFS below one fault sequence of the frontier. A level whose size, summed over the frontier (estimated as
+    frontier size x the size in this sub-tree), exceeds the tier's limit is merged by state."""
+    ci, thorough, depth, hist, n_live, frontier = item
+    cfg = configs(thorough)[ci]
+    keep = KEEP_THOROUGH if thorough else KEEP_QUICK
+    p = Partial()
+    reported: set = set()
+    level = [(tuple(hist), n_live)]
+    with standins():
+        for _lvl in range(len(hist), depth):
+            every, reps = _expand(p, cfg, level, reported, thorough)
+            if frontier * len(every) <= keep:
                 level = every  # small level: every fault sequence is continued, nothing is merged
                 p.count("levels_kept_unmerged")
             else:
                 level = [(h, n) for _, h, n in reps.values()]
                 p.count("levels_merged_by_state")
-            p.count("histories_continued", len(level))
-            if level:
-                deepest = max((h for h, _ in level), key=lambda h: sum(len(o) - o.count(SURVIVE) for o in h))
+            p.count("fault_sequences_continued", len(level))
         if _os.environ.get("C14_DEBUG"):
-            print(tag(cfg), sorted(states))
-    p.count("bfs_states", len(states))
-    p.count(f"configs_{cfg['runner']}")
-    p.add("configs", tag(cfg))
-    p.max("depth_completed", depth)
-    p.sample({"configuration": tag(cfg), "a_deepest_fault_sequence": list(deepest)})
+            print(tag(cfg), hist, sorted(k for t, k in p.sets.get("bfs_states", ())))
+    if level:
+        p.sample({"configuration": tag(cfg), "a_deepest_fault_sequence": list(max((h for h, _ in level), key=_stress))})
     if not seams_restored():
         raise RuntimeError("stand-ins left installed")
     return p
@@ -760,32 +806,40 @@ def run(ctx: Ctx) -> None:
     depth = 4 if ctx.thorough else 3
     cfgs = configs(ctx.thorough)
     idx = [i for i, c in enumerate(cfgs) if not ctx.only or ctx.only in tag(c)]
-    # heavy units first (pure scheduling order: the merged result is in item order)
     r0 = [resource.getrusage(w) for w in (resource.RUSAGE_SELF, resource.RUSAGE_CHILDREN)]
-    items = [(i, ctx.thorough, depth) for i in idx]
-    rot = ctx.seed % max(1, len(items))
-    parts = par.pmap(_unit, items[rot:] + items[:rot])
-    parts = parts[len(items) - rot:] + parts[:len(items) - rot] if rot else parts
+    roots = par.pmap(_root, [(i, ctx.thorough, depth) for i in idx])
+    subs = [(i, ctx.thorough, depth, h, n, len(frontier)) for i, (_, frontier) in zip(idx, roots) for h, n in frontier]
+    # VERIF_SEED only rotates the order in which the sub-trees are handed to the pool; results are merged in item order
+    rot = ctx.seed % max(1, len(subs))
+    parts = par.pmap(_subtree, subs[rot:] + subs[:rot])
+    parts = (parts[len(subs) - rot:] + parts[:len(subs) - rot]) if rot else parts
+    for part, _ in roots:
+        ctx.merge(part)
     for part in parts:
         ctx.merge(part)
-    ctx.samples.sort(key=lambda s: -sum(len(o) for o in s["a_deepest_fault_sequence"]))
+    ctx.count("subtree_units", len(subs))
+    ctx.max("depth_completed", depth)
     r1 = [resource.getrusage(w) for w in (resource.RUSAGE_SELF, resource.RUSAGE_CHILDREN)]
     ctx.extra["cpu_s"] = round(sum((b.ru_utime + b.ru_stime) - (a.ru_utime + a.ru_stime) for a, b in zip(r0, r1)), 1)
     ctx.extra["standins_restored"] = seams_restored()
     if not seams_restored():
         raise RuntimeError("stand-ins left installed")
     ctx.rule = (
-        f"per configuration ({len(items)}: PersistentProcessRunner num_processes 1..3 / 0=cpu_count / min_parallel_slots; "
+        f"per configuration ({len(idx)}: PersistentProcessRunner num_processes 1..3 / 0=cpu_count / min_parallel_slots; "
         "MultiThreadRunner (min,max)_processes over 1..3 and 0=cpu_count x enforce_max_processes on/off; ProcessRunner "
         "cpu_count 1..3 / min_parallel_slots; each with the queue empty and loaded): level-synchronous BFS to depth "
-        f"{depth} over fault sequences; one round = every assignment of a fate to every live tracked worker (survive / die "
-        "before the heartbeat report / die between report and iteration / ProcessRunner also: exit after finishing), i.e. "
-        "every subset incl. none and all, then the real report, the real loop iteration and the loop's sleep; after every "
+        f"{depth} over fault sequences; one round = "
+        + ("every assignment of a fate to every live tracked worker (survive / die before the heartbeat report / die between "
+           "report and iteration / ProcessRunner also: exit after finishing its invocation)" if ctx.thorough else
+           "every subset of the live tracked workers (incl. none and all) x one kind of death for the subset (before the "
+           "heartbeat report / between report and iteration / ProcessRunner also: exit after finishing its invocation)")
+        + ", then the real report, the real loop iteration and the loop's sleep; after every "
         "round the observations are compared with the configured numbers, then one quiet round (2nd iteration) and a "
-        "recoverability probe (clock + timeout, one report, recovery scan) on the discarded world. A BFS level with at most "
-        f"{KEEP_THOROUGH if ctx.thorough else KEEP_QUICK} fault sequences is continued sequence by sequence; a larger level is "
-        "merged by state (flags of the tracked workers in tracking order, untracked live workers, queue length), the "
-        "representative being the sequence with the most deaths")
+        "recoverability probe (clock + timeout, one report, recovery scan) on the discarded world. Levels are continued "
+        f"fault sequence by fault sequence while they hold at most {KEEP_THOROUGH if ctx.thorough else KEEP_QUICK} sequences; "
+        "a larger level is merged by state (flags of the tracked workers in tracking order, untracked live workers, queue "
+        f"length) inside each sub-tree below the first level with >= {SPLIT} sequences, the representative being the "
+        "sequence with the most deaths")
     ctx.assume("operating-system processes are stand-ins (start() records, is_alive() is the explorer's flag); the child entry "
                "points never run: the explorer performs their first steps (register runner context + heartbeat, claim one "
                "invocation, mark it RUNNING) through the real orchestrator with the ids the parent handed to Process(...)")
